@@ -639,6 +639,89 @@ impl Qualifiers {
     /// representation invariant (C04, C11): keys valid, lower-case, strictly ascending
     pub open spec fn wf(&self) -> bool { wf_seq(self.qualifiers@) }
 }
+// ---- unit T.OccupiedEntry  <= purl/src/qualifiers.rs:421 ----
+pub struct OccupiedEntry<'a, K> {
+    pub qualifiers: &'a mut Vec<(QualifierKey, SmallString)>,
+    pub index: usize,
+    pub key: PhantomData<K>,
+}
+// ---- unit T.VacantEntry  <= purl/src/qualifiers.rs:470 ----
+pub struct VacantEntry<'a, K> {
+    pub qualifiers: &'a mut Vec<(QualifierKey, SmallString)>,
+    pub index: usize,
+    pub key: MixedQualifierKey<K>,
+}
+// ---- unit T.Entry  <= purl/src/qualifiers.rs:374 ----
+pub enum Entry<'a, K> {
+    Occupied(OccupiedEntry<'a, K>),
+    Vacant(VacantEntry<'a, K>),
+}
+// ---- unit spec.entries  <= (contracts):0 ----
+
+impl<'a, K> OccupiedEntry<'a, K> {
+    pub open spec fn wf(&self) -> bool { wf_seq(self.qualifiers@) && self.index < self.qualifiers@.len() }
+}
+impl<'a, K: AsRef<str>> VacantEntry<'a, K> {
+    /// `index` is the one position where `key` can be inserted keeping the list strictly ascending
+    pub open spec fn wf(&self) -> bool {
+        wf_seq(self.qualifiers@) && self.key.wf() && self.index <= self.qualifiers@.len()
+        && (forall|j: int| 0 <= j < self.index ==> str_lt(#[trigger] self.qualifiers@[j].0.0@, self.key.canon()))
+        && (forall|j: int| self.index <= j < self.qualifiers@.len() ==> str_lt(self.key.canon(), #[trigger] self.qualifiers@[j].0.0@))
+    }
+}
+pub proof fn lemma_insert_keeps_wf(v: Seq<(QualifierKey, SmallString)>, i: int, kv: (QualifierKey, SmallString))
+    requires wf_seq(v), 0 <= i <= v.len(), canon_key(kv.0.0@),
+        forall|j: int| 0 <= j < i ==> str_lt(#[trigger] v[j].0.0@, kv.0.0@),
+        forall|j: int| i <= j < v.len() ==> str_lt(kv.0.0@, #[trigger] v[j].0.0@),
+    ensures wf_seq(v.insert(i, kv))
+{
+    let w = v.insert(i, kv);
+    assert forall|a: int, b: int| 0 <= a < b < w.len() implies str_lt(#[trigger] w[a].0.0@, #[trigger] w[b].0.0@) by {
+        if a < i && b == i { assert(w[a] == v[a]); }
+        else if a < i && b > i { assert(w[a] == v[a]); assert(w[b] == v[b - 1]); }
+        else if a == i { assert(w[b] == v[b - 1]); }
+        else if a > i { assert(w[a] == v[a - 1]); assert(w[b] == v[b - 1]); }
+        else { assert(w[a] == v[a]); assert(w[b] == v[b]); }
+    }
+    assert forall|a: int| 0 <= a < w.len() implies canon_key(#[trigger] w[a].0.0@) by {
+        if a < i { assert(w[a] == v[a]); } else if a > i { assert(w[a] == v[a - 1]); }
+    }
+}
+pub proof fn lemma_remove_keeps_wf(v: Seq<(QualifierKey, SmallString)>, i: int)
+    requires wf_seq(v), 0 <= i < v.len()
+    ensures wf_seq(v.remove(i))
+{
+    let w = v.remove(i);
+    assert forall|a: int, b: int| 0 <= a < b < w.len() implies str_lt(#[trigger] w[a].0.0@, #[trigger] w[b].0.0@) by {
+        let a0 = if a < i { a } else { a + 1 };
+        let b0 = if b < i { b } else { b + 1 };
+        assert(w[a] == v[a0]); assert(w[b] == v[b0]);
+    }
+    assert forall|a: int| 0 <= a < w.len() implies canon_key(#[trigger] w[a].0.0@) by {
+        let a0 = if a < i { a } else { a + 1 };
+        assert(w[a] == v[a0]);
+    }
+}
+pub proof fn lemma_update_value_keeps_wf(v: Seq<(QualifierKey, SmallString)>, i: int, val: SmallString)
+    requires wf_seq(v), 0 <= i < v.len()
+    ensures wf_seq(v.update(i, (v[i].0, val)))
+{
+    let w = v.update(i, (v[i].0, val));
+    assert forall|a: int, b: int| 0 <= a < b < w.len() implies str_lt(#[trigger] w[a].0.0@, #[trigger] w[b].0.0@) by {
+        assert(w[a].0 == v[a].0); assert(w[b].0 == v[b].0);
+    }
+    assert forall|a: int| 0 <= a < w.len() implies canon_key(#[trigger] w[a].0.0@) by { assert(w[a].0 == v[a].0); }
+}
+/// a key that sorts strictly between its neighbours is not in the list
+pub proof fn lemma_gap_not_present(v: Seq<(QualifierKey, SmallString)>, i: int, k: Seq<char>)
+    requires 0 <= i <= v.len(),
+        forall|j: int| 0 <= j < i ==> str_lt(#[trigger] v[j].0.0@, k),
+        forall|j: int| i <= j < v.len() ==> str_lt(k, #[trigger] v[j].0.0@),
+    ensures !has_key(v, k)
+{
+    lemma_lt_irrefl(k);
+}
+
 // ---- unit theory.types  <= (contracts):0 ----
 // ---- R9: stub of std::borrow::Cow for B = str (two variants, same names) ----
 pub enum Cow<'a, B: ?Sized> { Borrowed(&'a B), Owned(String) }
@@ -686,6 +769,136 @@ pub open spec fn shape_rel(t0: Seq<char>, p0: PurlParts, t1: Seq<char>, p1: Purl
     && (!valid_type(t0) ==> r == Err::<(), ParseError>(ParseError::InvalidPackageType))
 }
 
+
+// ---- unit theory.segs  <= (contracts):0 ----
+// ---- percent-decoding (uninterpreted) and the segment folds, written from C02 / C05 / C07 ----
+/// percent-decode + strict UTF-8 (the `percent-encoding` crate + `str::from_utf8`); None = refused
+pub uninterp spec fn dec(s: Seq<char>) -> Option<Seq<char>>;
+
+pub open spec fn is_dot(p: Seq<char>) -> bool { p == seq!['.'] }
+pub open spec fn is_dotdot(p: Seq<char>) -> bool { p == seq!['.', '.'] }
+pub open spec fn sub_skipped(p: Seq<char>) -> bool { p.len() == 0 || is_dot(p) || is_dotdot(p) }
+pub open spec fn ns_skipped(p: Seq<char>) -> bool { p.len() == 0 }
+pub open spec fn sub_bad(p: Seq<char>) -> bool {
+    dec(p) is None || has_char(dec(p)->Some_0, '/') || is_dot(dec(p)->Some_0) || is_dotdot(dec(p)->Some_0)
+}
+pub open spec fn ns_bad(p: Seq<char>) -> bool { dec(p) is None || has_char(dec(p)->Some_0, '/') }
+pub open spec fn join_push(acc: Seq<char>, seg: Seq<char>) -> Seq<char> { if acc.len() == 0 { seg } else { acc + seq!['/'] + seg } }
+
+/// subpath: skip raw '', '.', '..'; refuse a piece that does not decode, or decodes to something containing '/' or to '.' / '..'
+pub open spec fn sub_fold(pieces: Seq<Seq<char>>) -> Option<Seq<char>> decreases pieces.len() {
+    if pieces.len() == 0 { Some(Seq::<char>::empty()) } else {
+        match sub_fold(pieces.drop_last()) {
+            None => None,
+            Some(acc) => if sub_skipped(pieces.last()) { Some(acc) } else if sub_bad(pieces.last()) { None }
+                         else { Some(join_push(acc, dec(pieces.last())->Some_0)) },
+        }
+    }
+}
+/// namespace: skip raw ''; refuse a piece that does not decode or decodes to something containing '/'
+pub open spec fn ns_fold(pieces: Seq<Seq<char>>) -> Option<Seq<char>> decreases pieces.len() {
+    if pieces.len() == 0 { Some(Seq::<char>::empty()) } else {
+        match ns_fold(pieces.drop_last()) {
+            None => None,
+            Some(acc) => if ns_skipped(pieces.last()) { Some(acc) } else if ns_bad(pieces.last()) { None }
+                         else { Some(join_push(acc, dec(pieces.last())->Some_0)) },
+        }
+    }
+}
+
+pub proof fn lemma_sub_fold_none(ps: Seq<Seq<char>>, k: int)
+    requires 0 <= k <= ps.len(), sub_fold(ps.take(k)) is None
+    ensures sub_fold(ps) is None
+    decreases ps.len() - k
+{
+    if k < ps.len() {
+        assert(ps.take(k + 1).drop_last() == ps.take(k));
+        lemma_sub_fold_none(ps, k + 1);
+    } else { assert(ps.take(k) == ps); }
+}
+pub proof fn lemma_ns_fold_none(ps: Seq<Seq<char>>, k: int)
+    requires 0 <= k <= ps.len(), ns_fold(ps.take(k)) is None
+    ensures ns_fold(ps) is None
+    decreases ps.len() - k
+{
+    if k < ps.len() {
+        assert(ps.take(k + 1).drop_last() == ps.take(k));
+        lemma_ns_fold_none(ps, k + 1);
+    } else { assert(ps.take(k) == ps); }
+}
+
+/// `[a, b, c].contains(&s)` on string slices
+#[verifier::external_body]
+pub fn x_is_one_of3(s: &str, a: &str, b: &str, c: &str) -> (r: bool)
+    ensures r == (s@ == a@ || s@ == b@ || s@ == c@)
+{ [a, b, c].contains(&s) }
+#[verifier::external_body]
+pub fn x_is_one_of2(s: &str, a: &str, b: &str) -> (r: bool)
+    ensures r == (s@ == a@ || s@ == b@)
+{ [a, b].contains(&s) }
+
+/// `write!(w, "{}", d).unwrap()` on a String: appends the text (fmt::Write for String never fails)
+#[verifier::external_body]
+pub fn x_write_display(w: &mut String, d: &str)
+    ensures final(w)@ == old(w)@ + d@
+{ use std::fmt::Write; write!(w, "{}", d).unwrap() }
+
+// ---- unit theory.dq  <= (contracts):0 ----
+// ---- qualifiers part of the parser (C02, C05), written from the statements ----
+pub type KV = Seq<(Seq<char>, Seq<char>)>;
+pub open spec fn kvs(v: Seq<(QualifierKey, SmallString)>) -> KV { v.map_values(|e: (QualifierKey, SmallString)| (e.0.0@, e.1@)) }
+
+pub open spec fn kv_has_key(v: KV, k: Seq<char>) -> bool { exists|i: int| 0 <= i < v.len() && (#[trigger] v[i]).0 == k }
+pub open spec fn kv_pos_of(v: KV, k: Seq<char>) -> int decreases v.len()
+{ if v.len() == 0 { 0 } else { kv_pos_of(v.drop_last(), k) + if str_lt(v.last().0, k) { 1int } else { 0int } } }
+
+pub proof fn lemma_kvs_pos_of(v: Seq<(QualifierKey, SmallString)>, k: Seq<char>)
+    ensures kv_pos_of(kvs(v), k) == pos_of(v, k), kv_has_key(kvs(v), k) == has_key(v, k)
+    decreases v.len()
+{
+    if v.len() > 0 {
+        assert(kvs(v).drop_last() =~= kvs(v.drop_last()));
+        lemma_kvs_pos_of(v.drop_last(), k);
+        assert(kvs(v).last().0 == v.last().0.0@);
+    }
+    if has_key(v, k) { let i = choose|i: int| 0 <= i < v.len() && #[trigger] v[i].0.0@ == k; assert(kvs(v)[i].0 == k); }
+    if kv_has_key(kvs(v), k) { let i = choose|i: int| 0 <= i < kvs(v).len() && (#[trigger] kvs(v)[i]).0 == k; assert(v[i].0.0@ == k); }
+}
+
+pub enum DqErr { Qualifier, Escape }
+
+/// one `key=value` item, in the order the statement lists the defects: no '=', invalid key, key already present,
+/// value not decodable; an empty decoded value is skipped; otherwise the pair is inserted at its sorted position
+pub open spec fn dq_step(acc: KV, item: Seq<char>) -> Result<KV, DqErr> {
+    let i = first_index_of(item, '=');
+    if i < 0 { Err(DqErr::Qualifier) } else {
+        let k = item.subrange(0, i);
+        let v = item.subrange(i + 1, item.len() as int);
+        if !valid_key(k) { Err(DqErr::Qualifier) }
+        else if kv_has_key(acc, lower_ascii_seq(k)) { Err(DqErr::Qualifier) }
+        else if dec(v) is None { Err(DqErr::Escape) }
+        else if dec(v)->Some_0.len() == 0 { Ok(acc) }
+        else { Ok(acc.insert(kv_pos_of(acc, lower_ascii_seq(k)), (lower_ascii_seq(k), dec(v)->Some_0))) }
+    }
+}
+pub open spec fn dq_fold(items: Seq<Seq<char>>, acc0: KV) -> Result<KV, DqErr> decreases items.len() {
+    if items.len() == 0 { Ok(acc0) } else {
+        match dq_fold(items.drop_last(), acc0) { Err(e) => Err(e), Ok(acc) => dq_step(acc, items.last()) }
+    }
+}
+pub open spec fn dq_err(e: ParseError, d: DqErr) -> bool {
+    match d { DqErr::Qualifier => e == ParseError::InvalidQualifier, DqErr::Escape => e == ParseError::InvalidEscape }
+}
+pub proof fn lemma_dq_fold_err(items: Seq<Seq<char>>, acc0: KV, k: int)
+    requires 0 <= k <= items.len(), dq_fold(items.take(k), acc0) is Err
+    ensures dq_fold(items, acc0) == dq_fold(items.take(k), acc0)
+    decreases items.len() - k
+{
+    if k < items.len() {
+        assert(items.take(k + 1).drop_last() == items.take(k));
+        lemma_dq_fold_err(items, acc0, k + 1);
+    } else { assert(items.take(k) == items); }
+}
 
 // ---- unit theory.cksum  <= (contracts):0 ----
 // ---- checksum qualifier: typed value <-> text (C04, C12), written from the statements ----
@@ -1046,18 +1259,6 @@ impl<'a> Checksum<'a> {
     pub open spec fn entries(&self) -> Map<Seq<char>, Seq<char>> { hm_view(self.algorithms) }
 }
 
-// ---- unit U-cktext.checksum_to_text  <= purl/src/qualifiers/well_known.rs:133 ----
-#[verifier::external_body]
-pub fn checksum_to_text<'a>(value: Checksum<'a>) -> (r: Result<SmallString, ParseError>)
-    ensures match r {
-        // refused exactly when some entry is not an even number of hex digits
-        Err(e) => e == ParseError::InvalidQualifier && !all_values_hex(value.entries()),
-        // otherwise: the entries in strictly ascending algorithm order, lower-case hex -- one text, for EVERY order in which the map yields them
-        Ok(t) => all_values_hex(value.entries()) && t@ == canon_text(value.entries())
-            // the text of a non-empty entry set is non-empty
-            && ((exists|k: Seq<char>| #[trigger] value.entries().contains_key(k)) ==> t@.len() > 0),
-    }
-{ unimplemented!() }
 // ---- unit T.KnownQualifierKey  <= purl/src/qualifiers/well_known.rs:17 ----
 pub trait KnownQualifierKey {
     const KEY: &'static str;
@@ -1249,233 +1450,137 @@ pub open spec fn build_post<T: PurlShape>(t1: T, p1: PurlParts, fr: Result<(), T
     }
 }
 
-// ---- unit T.ChecksumKey  <= purl/src/qualifiers/well_known.rs:103 ----
-impl KnownQualifierKey for Checksum<'_> {
-    const KEY: &'static str = "checksum";
+// ---- unit theory.parse  <= (contracts):0 ----
+// ---- the parser as a function of the text (C02, C05, C07, C14), written from the statements ----
+// R9: stub of std::str::FromStr with a specification of what the (user-supplied) conversion may return
+pub trait FromStr: Sized {
+    type Err;
+    /// what the conversion returns for a given text (any relation: user code)
+    spec fn from_str_rel(s: Seq<char>, r: Result<Self, Self::Err>) -> bool;
+    fn from_str(s: &str) -> (r: Result<Self, Self::Err>)
+        ensures Self::from_str_rel(s@, r);
 }
-impl Qualifiers {
-// ---- unit U-qmap.insert  <= purl/src/qualifiers.rs:207 ----
+
+pub open spec fn has_prefix(s: Seq<char>, p: Seq<char>) -> bool { s.len() >= p.len() && s.subrange(0, p.len() as int) == p }
+
+/// `s.strip_prefix(p)` for a string pattern
 #[verifier::external_body]
-pub fn insert<K, V>(&mut self, key: K, v: V) -> (r: Result<&mut SmallString, ParseError>)
-where K: AsRef<str>, SmallString: From<K> + From<V>,
-        requires old(self).wf()
-        ensures
-            final(self).wf(),
-            !valid_key(key.text()) ==> r is Err && r->Err_0 is InvalidQualifier && final(self).qualifiers@ == old(self).qualifiers@,
-            valid_key(key.text()) ==> r is Ok
-                && (<SmallString as vstd::std_specs::convert::FromSpec<V>>::obeys_from_spec() ==>
-                        *(r->Ok_0) == <SmallString as vstd::std_specs::convert::FromSpec<V>>::from_spec(v)),
-            // whole-content postcondition (p names the position of the key = number of smaller keys):
-            // an existing key keeps its position and only its value changes ...
-            valid_key(key.text()) && has_key(old(self).qualifiers@, lower_ascii_seq(key.text())) ==> ({
-                let p = pos_of(old(self).qualifiers@, lower_ascii_seq(key.text()));
-                0 <= p < old(self).qualifiers@.len() && old(self).qualifiers@[p].0.0@ == lower_ascii_seq(key.text())
-                && final(self).qualifiers@ == old(self).qualifiers@.update(p, (old(self).qualifiers@[p].0, *final(r->Ok_0)))
-            }),
-            // ... a new key is spliced in at p, every other pair untouched and in the same order
-            valid_key(key.text()) && !has_key(old(self).qualifiers@, lower_ascii_seq(key.text())) ==> ({
-                let p = pos_of(old(self).qualifiers@, lower_ascii_seq(key.text()));
-                0 <= p <= old(self).qualifiers@.len()
-                && final(self).qualifiers@.len() == old(self).qualifiers@.len() + 1
-                && final(self).qualifiers@[p].0.0@ == lower_ascii_seq(key.text())
-                && final(self).qualifiers@ == old(self).qualifiers@.insert(p, (final(self).qualifiers@[p].0, *final(r->Ok_0)))
-            }),
-{ unimplemented!() }
-// ---- unit U-qmap.remove  <= purl/src/qualifiers.rs:261 ----
-#[verifier::external_body]
-pub fn remove<S>(&mut self, key: S) -> (r: Option<SmallString>)
-where S: AsRef<str>,
-        requires old(self).wf()
-        ensures
-            final(self).wf(),
-            r is Some == (valid_key(key.text()) && has_key(old(self).qualifiers@, lower_ascii_seq(key.text()))),
-            r is None ==> final(self).qualifiers@ == old(self).qualifiers@,
-            r is Some ==> ({
-                let p = pos_of(old(self).qualifiers@, lower_ascii_seq(key.text()));
-                0 <= p < old(self).qualifiers@.len() && old(self).qualifiers@[p].0.0@ == lower_ascii_seq(key.text())
-                && r->Some_0 == old(self).qualifiers@[p].1
-                && final(self).qualifiers@ == old(self).qualifiers@.remove(p)
-            }),
-{ unimplemented!() }
-// ---- unit U-qmap.clear  <= purl/src/qualifiers.rs:88 ----
-#[verifier::external_body]
-pub fn clear(&mut self)
-        ensures final(self).qualifiers@.len() == 0, final(self).wf()
-{ unimplemented!() }
-// ---- unit U-qmap.insert_typed  <= purl/src/qualifiers.rs:232 ----
-#[verifier::external_body]
-pub fn insert_typed<Q>(&mut self, value: Q) where Q: KnownQualifierKey, SmallString: From<Q>,
-        requires old(self).wf(), valid_key(Q::KEY@)
-        ensures final(self).wf(),
-            <SmallString as vstd::std_specs::convert::FromSpec<Q>>::obeys_from_spec() ==> ({
-                let k = lower_ascii_seq(Q::KEY@);
-                let p = pos_of(old(self).qualifiers@, k);
-                let val = <SmallString as vstd::std_specs::convert::FromSpec<Q>>::from_spec(value);
-                if has_key(old(self).qualifiers@, k) {
-                    final(self).qualifiers@ == old(self).qualifiers@.update(p, (old(self).qualifiers@[p].0, val))
-                } else {
-                    final(self).qualifiers@.len() == old(self).qualifiers@.len() + 1 && final(self).qualifiers@[p].0.0@ == k
-                    && final(self).qualifiers@ == old(self).qualifiers@.insert(p, (final(self).qualifiers@[p].0, val))
-                }
-            })
-{ unimplemented!() }
-// ---- unit U-qmap.remove_typed  <= purl/src/qualifiers.rs:273 ----
-#[verifier::external_body]
-pub fn remove_typed<Q>(&mut self) where Q: KnownQualifierKey,
-        requires old(self).wf()
-        ensures final(self).wf(),
-            !(valid_key(Q::KEY@) && has_key(old(self).qualifiers@, lower_ascii_seq(Q::KEY@))) ==> final(self).qualifiers@ == old(self).qualifiers@,
-            valid_key(Q::KEY@) && has_key(old(self).qualifiers@, lower_ascii_seq(Q::KEY@)) ==>
-                final(self).qualifiers@ == old(self).qualifiers@.remove(pos_of(old(self).qualifiers@, lower_ascii_seq(Q::KEY@)))
-{ unimplemented!() }
+pub fn x_strip_prefix<'a>(s: &'a str, p: &str) -> (r: Option<&'a str>)
+    ensures match r {
+        Some(t) => has_prefix(s@, p@) && t@ == s@.subrange(p@.len() as int, s@.len() as int),
+        None => !has_prefix(s@, p@),
+    }
+{ s.strip_prefix(p) }
+
+/// right-to-left split at the LAST occurrence of `c`: (left part, right part if `c` occurs)
+pub open spec fn rsplit_at(s: Seq<char>, c: char) -> (Seq<char>, Option<Seq<char>>) {
+    if last_index_of(s, c) < 0 { (s, None) }
+    else { (s.subrange(0, last_index_of(s, c)), Some(s.subrange(last_index_of(s, c) + 1, s.len() as int))) }
 }
+
+pub struct PhaseA { pub ty: Seq<char>, pub rest: Seq<char>, pub sub: Seq<char>, pub kv: KV }
+pub struct PhaseB { pub ns: Seq<char>, pub name: Seq<char>, pub version: Seq<char> }
+
+pub open spec fn dq_parse_err(d: DqErr) -> ParseError { match d { DqErr::Qualifier => ParseError::InvalidQualifier, DqErr::Escape => ParseError::InvalidEscape } }
+
+/// everything up to the type conversion: scheme, leading slashes, subpath after the last '#', qualifiers after the last '?',
+/// type up to the first '/', type syntax
+pub open spec fn phase_a(s: Seq<char>) -> Result<PhaseA, ParseError> {
+    if !has_prefix(s, "pkg:"@) { Err(ParseError::UnsupportedUrlScheme) } else {
+        let s1 = trim_start_spec(s.subrange("pkg:"@.len() as int, s.len() as int), '/');
+        let (s2, sub_raw) = rsplit_at(s1, '#');
+        let sub = match sub_raw { None => Some(Seq::<char>::empty()), Some(x) => sub_fold(split_spec(trim_spec(x, '/'), '/')) };
+        if sub is None { Err(ParseError::InvalidEscape) } else {
+            let (s3, q_raw) = rsplit_at(s2, '?');
+            let kv = match q_raw { None => Ok::<KV, DqErr>(Seq::<(Seq<char>, Seq<char>)>::empty()), Some(x) => dq_fold(split_spec(x, '&'), Seq::<(Seq<char>, Seq<char>)>::empty()) };
+            match kv {
+                Err(d) => Err(dq_parse_err(d)),
+                Ok(kvv) =>
+                    if s3.len() == 0 { Err(ParseError::MissingRequiredField(PurlField::PackageType)) }
+                    else if first_index_of(s3, '/') < 0 { Err(ParseError::MissingRequiredField(PurlField::Name)) }
+                    else {
+                        let ty = s3.subrange(0, first_index_of(s3, '/'));
+                        if !valid_type(ty) { Err(ParseError::InvalidPackageType) }
+                        else { Ok(PhaseA { ty, rest: s3.subrange(first_index_of(s3, '/') + 1, s3.len() as int), sub: sub->Some_0, kv: kvv }) }
+                    },
+            }
+        }
+    }
+}
+
+/// after the conversion: version after the last '@', namespace before the last '/', name
+pub open spec fn phase_b(rest: Seq<char>) -> Result<PhaseB, ParseError> {
+    let (r1, ver_raw) = rsplit_at(rest, '@');
+    let version = match ver_raw { None => Some(Seq::<char>::empty()), Some(x) => dec(x) };
+    if version is None { Err(ParseError::InvalidEscape) } else {
+        let (ns_raw, name_raw) = if last_index_of(r1, '/') < 0 { (None::<Seq<char>>, r1) }
+            else { (Some(r1.subrange(0, last_index_of(r1, '/'))), r1.subrange(last_index_of(r1, '/') + 1, r1.len() as int)) };
+        let ns = match ns_raw { None => Some(Seq::<char>::empty()), Some(x) => ns_fold(split_spec(trim_spec(x, '/'), '/')) };
+        if ns is None { Err(ParseError::InvalidEscape) }
+        else if dec(name_raw) is None { Err(ParseError::InvalidEscape) }
+        else { Ok(PhaseB { ns: ns->Some_0, name: dec(name_raw)->Some_0, version: version->Some_0 }) }
+    }
+}
+
+pub open spec fn parts_are(p: PurlParts, a: PhaseA, b: PhaseB) -> bool {
+    p.namespace@ == b.ns && p.name@ == b.name && p.version@ == b.version && p.subpath@ == a.sub
+    && kvs(p.qualifiers.qualifiers@) == a.kv && wf_seq(p.qualifiers.qualifiers@)
+}
+
+/// C02 / C05 / C14: the result of parsing as a function of the text, the conversion relation and the hook relation
+pub open spec fn parse_post<T: FromStr + PurlShape>(s: Seq<char>, r: Result<GenericPurl<T>, <T as PurlShape>::Error>) -> bool
+    where <T as PurlShape>::Error: From<<T as FromStr>::Err>
+{
+    let conv_p = <<T as PurlShape>::Error as vstd::std_specs::convert::FromSpec<ParseError>>::obeys_from_spec();
+    let conv_e = <<T as PurlShape>::Error as vstd::std_specs::convert::FromSpec<<T as FromStr>::Err>>::obeys_from_spec();
+    match phase_a(s) {
+        // a defect before the conversion: the conversion is never consulted
+        Err(e) => r is Err && (conv_p ==> r->Err_0 == <<T as PurlShape>::Error as vstd::std_specs::convert::FromSpec<ParseError>>::from_spec(e)),
+        // the conversion sees exactly the (syntactically valid) type substring, once
+        Ok(a) => exists|cr: Result<T, <T as FromStr>::Err>| #[trigger] T::from_str_rel(a.ty, cr) && match cr {
+            Err(ce) => r is Err && (conv_e ==> r->Err_0 == <<T as PurlShape>::Error as vstd::std_specs::convert::FromSpec<<T as FromStr>::Err>>::from_spec(ce)),
+            Ok(t0) => match phase_b(a.rest) {
+                Err(e) => r is Err && (conv_p ==> r->Err_0 == <<T as PurlShape>::Error as vstd::std_specs::convert::FromSpec<ParseError>>::from_spec(e)),
+                // ... and the tail is build(): one hook application, then the generic checks
+                Ok(b) => exists|p0: PurlParts, t1: T, p1: PurlParts, fr: Result<(), <T as PurlShape>::Error>|
+                    parts_are(p0, a, b) && #[trigger] T::finish_rel(t0, p0, t1, p1, fr) && build_post::<T>(t1, p1, fr, r),
+            },
+        },
+    }
+}
+
+// ---- unit U-dec.decode  <= purl/src/parse.rs:297 ----
+#[verifier::external_body]
+pub fn decode(input: &str) -> (r: Result<Cow<str>, ParseError>)
+    ensures match dec(input@) {
+        None => r is Err && r->Err_0 == ParseError::InvalidEscape,
+        Some(t) => r is Ok && r->Ok_0@ == t,
+    }
+{ unimplemented!() }
+// ---- unit U-sub.decode_subpath  <= purl/src/parse.rs:234 ----
+#[verifier::external_body]
+pub fn decode_subpath(subpath: &str) -> (r: Result<SmallString, ParseError>)
+    ensures match r {
+        Ok(out) => sub_fold(split_spec(trim_spec(subpath@, '/'), '/')) == Some(out@),
+        Err(e) => sub_fold(split_spec(trim_spec(subpath@, '/'), '/')) is None && e == ParseError::InvalidEscape,
+    }
+{ unimplemented!() }
+// ---- unit U-ns.decode_namespace  <= purl/src/parse.rs:276 ----
+#[verifier::external_body]
+pub fn decode_namespace(namespace: &str) -> (r: Result<SmallString, ParseError>)
+    ensures match r {
+        Ok(out) => ns_fold(split_spec(trim_spec(namespace@, '/'), '/')) == Some(out@),
+        Err(e) => ns_fold(split_spec(trim_spec(namespace@, '/'), '/')) is None && e == ParseError::InvalidEscape,
+    }
+{ unimplemented!() }
+// ---- unit U-vtype.is_valid_package_type  <= purl/src/lib.rs:380 ----
+#[verifier::external_body]
+pub fn is_valid_package_type(package_type: &str) -> (r: bool)
+    ensures r == valid_type(package_type@)
+{ unimplemented!() }
 impl<T> GenericPurlBuilder<T> {
-// ---- unit U-set.new  <= purl/src/builder.rs:34 ----
-pub fn new<S>(package_type: T, name: S) -> (r: Self)
-where SmallString: From<S>,
-        ensures r.package_type == package_type,
-            r.parts.namespace@.len() == 0, r.parts.version@.len() == 0, r.parts.subpath@.len() == 0,
-            r.parts.qualifiers.qualifiers@.len() == 0,
-            <SmallString as vstd::std_specs::convert::FromSpec<S>>::obeys_from_spec() ==> r.parts.name == <SmallString as vstd::std_specs::convert::FromSpec<S>>::from_spec(name)
-{
-        Self {
-            package_type,
-            parts: PurlParts { name: SmallString::from(name), ..Default::default() },
-        }
-    }
-// ---- unit U-set.with_package_type  <= purl/src/builder.rs:45 ----
-pub fn with_package_type(self, new: T) -> (r: Self)
-        ensures r.package_type == new, r.parts == self.parts
-{
-    let mut this = self;
-        this.package_type = new;
-        this
-    }
-// ---- unit U-set.with_namespace  <= purl/src/builder.rs:53 ----
-pub fn with_namespace<S>(self, new: S) -> (r: Self)
-where SmallString: From<S>,
-        ensures r.package_type == self.package_type, r.parts.name == self.parts.name, r.parts.version == self.parts.version, r.parts.qualifiers == self.parts.qualifiers, r.parts.subpath == self.parts.subpath,
-            <SmallString as vstd::std_specs::convert::FromSpec<S>>::obeys_from_spec() ==> r.parts.namespace == <SmallString as vstd::std_specs::convert::FromSpec<S>>::from_spec(new)
-{
-    let mut this = self;
-        this.parts.namespace = SmallString::from(new);
-        this
-    }
-// ---- unit U-set.without_namespace  <= purl/src/builder.rs:64 ----
-pub fn without_namespace(self) -> (r: Self)
-        ensures r.package_type == self.package_type, r.parts.name == self.parts.name, r.parts.version == self.parts.version, r.parts.qualifiers == self.parts.qualifiers, r.parts.subpath == self.parts.subpath, r.parts.namespace@.len() == 0
-{
-    let mut this = self;
-        this.parts.namespace = Default::default();
-        this
-    }
-// ---- unit U-set.with_name  <= purl/src/builder.rs:70 ----
-pub fn with_name<S>(self, new: S) -> (r: Self)
-where SmallString: From<S>,
-        ensures r.package_type == self.package_type, r.parts.namespace == self.parts.namespace, r.parts.version == self.parts.version, r.parts.qualifiers == self.parts.qualifiers, r.parts.subpath == self.parts.subpath,
-            <SmallString as vstd::std_specs::convert::FromSpec<S>>::obeys_from_spec() ==> r.parts.name == <SmallString as vstd::std_specs::convert::FromSpec<S>>::from_spec(new)
-{
-    let mut this = self;
-        this.parts.name = SmallString::from(new);
-        this
-    }
-// ---- unit U-set.with_version  <= purl/src/builder.rs:81 ----
-pub fn with_version<S>(self, new: S) -> (r: Self)
-where SmallString: From<S>,
-        ensures r.package_type == self.package_type, r.parts.namespace == self.parts.namespace, r.parts.name == self.parts.name, r.parts.qualifiers == self.parts.qualifiers, r.parts.subpath == self.parts.subpath,
-            <SmallString as vstd::std_specs::convert::FromSpec<S>>::obeys_from_spec() ==> r.parts.version == <SmallString as vstd::std_specs::convert::FromSpec<S>>::from_spec(new)
-{
-    let mut this = self;
-        this.parts.version = SmallString::from(new);
-        this
-    }
-// ---- unit U-set.without_version  <= purl/src/builder.rs:92 ----
-pub fn without_version(self) -> (r: Self)
-        ensures r.package_type == self.package_type, r.parts.namespace == self.parts.namespace, r.parts.name == self.parts.name, r.parts.qualifiers == self.parts.qualifiers, r.parts.subpath == self.parts.subpath, r.parts.version@.len() == 0
-{
-    let mut this = self;
-        this.parts.version = Default::default();
-        this
-    }
-// ---- unit U-set.with_subpath  <= purl/src/builder.rs:170 ----
-pub fn with_subpath<S>(self, new: S) -> (r: Self)
-where SmallString: From<S>,
-        ensures r.package_type == self.package_type, r.parts.namespace == self.parts.namespace, r.parts.name == self.parts.name, r.parts.version == self.parts.version, r.parts.qualifiers == self.parts.qualifiers,
-            <SmallString as vstd::std_specs::convert::FromSpec<S>>::obeys_from_spec() ==> r.parts.subpath == <SmallString as vstd::std_specs::convert::FromSpec<S>>::from_spec(new)
-{
-    let mut this = self;
-        this.parts.subpath = SmallString::from(new);
-        this
-    }
-// ---- unit U-set.without_subpath  <= purl/src/builder.rs:181 ----
-pub fn without_subpath(self) -> (r: Self)
-        ensures r.package_type == self.package_type, r.parts.namespace == self.parts.namespace, r.parts.name == self.parts.name, r.parts.version == self.parts.version, r.parts.qualifiers == self.parts.qualifiers, r.parts.subpath@.len() == 0
-{
-    let mut this = self;
-        this.parts.subpath = Default::default();
-        this
-    }
-// ---- unit U-set.with_qualifier  <= purl/src/builder.rs:100 ----
-pub fn with_qualifier<K, V>(self, k: K, v: V) -> (r: Result<Self, ParseError>)
-where K: AsRef<str>, SmallString: From<K> + From<V>,
-        requires self.parts.qualifiers.wf()
-        ensures
-            !valid_key(k.text()) ==> r is Err && r->Err_0 is InvalidQualifier,
-            valid_key(k.text()) ==> r is Ok && r->Ok_0.package_type == self.package_type && r->Ok_0.parts.namespace == self.parts.namespace && r->Ok_0.parts.name == self.parts.name && r->Ok_0.parts.version == self.parts.version && r->Ok_0.parts.subpath == self.parts.subpath && r->Ok_0.parts.qualifiers.wf()
-                && (<SmallString as vstd::std_specs::convert::FromSpec<V>>::obeys_from_spec() ==> ({
-                    let kt = lower_ascii_seq(k.text());
-                    let old_v = self.parts.qualifiers.qualifiers@;
-                    let new_v = r->Ok_0.parts.qualifiers.qualifiers@;
-                    let p = pos_of(old_v, kt);
-                    let val = <SmallString as vstd::std_specs::convert::FromSpec<V>>::from_spec(v);
-                    if has_key(old_v, kt) { new_v == old_v.update(p, (old_v[p].0, val)) }
-                    else { new_v.len() == old_v.len() + 1 && new_v[p].0.0@ == kt && new_v == old_v.insert(p, (new_v[p].0, val)) }
-                })),
-{
-    let mut this = self;
-        this.parts.qualifiers.insert(k, v)?;
-        Ok(this)
-    }
-// ---- unit U-set.without_qualifier  <= purl/src/builder.rs:153 ----
-pub fn without_qualifier<S>(self, k: S) -> (r: Self)
-where S: AsRef<str>,
-        requires self.parts.qualifiers.wf()
-        ensures r.package_type == self.package_type, r.parts.namespace == self.parts.namespace, r.parts.name == self.parts.name, r.parts.version == self.parts.version, r.parts.subpath == self.parts.subpath, r.parts.qualifiers.wf(),
-            !(valid_key(k.text()) && has_key(self.parts.qualifiers.qualifiers@, lower_ascii_seq(k.text()))) ==>
-                r.parts.qualifiers.qualifiers@ == self.parts.qualifiers.qualifiers@,
-            valid_key(k.text()) && has_key(self.parts.qualifiers.qualifiers@, lower_ascii_seq(k.text())) ==>
-                r.parts.qualifiers.qualifiers@ == self.parts.qualifiers.qualifiers@.remove(pos_of(self.parts.qualifiers.qualifiers@, lower_ascii_seq(k.text()))),
-{
-    let mut this = self;
-        this.parts.qualifiers.remove(k);
-        this
-    }
-// ---- unit U-set.without_qualifiers  <= purl/src/builder.rs:162 ----
-pub fn without_qualifiers(self) -> (r: Self)
-        ensures r.package_type == self.package_type, r.parts.namespace == self.parts.namespace, r.parts.name == self.parts.name, r.parts.version == self.parts.version, r.parts.subpath == self.parts.subpath, r.parts.qualifiers.qualifiers@.len() == 0, r.parts.qualifiers.wf()
-{
-    let mut this = self;
-        this.parts.qualifiers.clear();
-        this
-    }
-// ---- unit U-set.with_typed_qualifier  <= purl/src/builder.rs:112 ----
-pub fn with_typed_qualifier<Q>(self, v: Option<Q>) -> (r: Self)
-where Q: KnownQualifierKey, SmallString: From<Q>,
-        requires self.parts.qualifiers.wf(), v is Some ==> valid_key(Q::KEY@)
-        ensures r.package_type == self.package_type, r.parts.namespace == self.parts.namespace, r.parts.name == self.parts.name, r.parts.version == self.parts.version, r.parts.subpath == self.parts.subpath, r.parts.qualifiers.wf()
-{
-    let mut this = self;
-        match v {
-            Some(v) => {
-                this.parts.qualifiers.insert_typed(v);
-            },
-            None => {
-                this.parts.qualifiers.remove_typed::<Q>();
-            },
-        }
-        this
-    }
 // ---- unit U-build.build  <= purl/src/builder.rs:190 ----
+#[verifier::external_body]
 pub fn build(self) -> (r: Result<GenericPurl<T>, T::Error>)
 where T: PurlShape,
         requires self.parts.qualifiers.wf()
@@ -1485,35 +1590,181 @@ where T: PurlShape,
                 #[trigger] T::finish_rel(self.package_type, self.parts, t1, p1, fr) && build_post::<T>(t1, p1, fr, r),
             r is Ok ==> r->Ok_0.parts.qualifiers.wf() && r->Ok_0.parts.name@.len() > 0
                 && forall|i: int| 0 <= i < r->Ok_0.parts.qualifiers.qualifiers@.len() ==> (#[trigger] r->Ok_0.parts.qualifiers.qualifiers@[i]).1@.len() > 0,
-{
-    let mut this = self;
-        
-        let ghost t0 = this.package_type;
-        let ghost p0 = this.parts;
-this.package_type.finish(&mut this.parts)?;
-        
-        let ghost t1 = this.package_type;
-        let ghost p1 = this.parts;
-        proof { lemma_nonempty_subset(p1.qualifiers.qualifiers@); lemma_nonempty_wf(p1.qualifiers.qualifiers@); lemma_checksum_key(); axiom_string_from(); }
-if this.parts.name.is_empty() {
-            return Err(T::Error::from(ParseError::MissingRequiredField(PurlField::Name)));
+{ unimplemented!() }
+}
+impl Qualifiers {
+// ---- unit U-qmap.entry  <= purl/src/qualifiers.rs:162 ----
+#[verifier::external_body]
+pub fn entry<K>(&mut self, key: K) -> (r: Result<Entry<K>, ParseError>)
+where K: AsRef<str>,
+        requires old(self).wf()
+        ensures
+            !valid_key(key.text()) ==> r is Err && r->Err_0 is InvalidQualifier && final(self).qualifiers@ == old(self).qualifiers@,
+            valid_key(key.text()) ==> r is Ok && match r->Ok_0 {
+                Entry::Occupied(o) => o.wf() && *o.qualifiers == old(self).qualifiers && *final(o.qualifiers) == final(self).qualifiers
+                    && o.index == pos_of(old(self).qualifiers@, lower_ascii_seq(key.text()))
+                    && old(self).qualifiers@[o.index as int].0.0@ == lower_ascii_seq(key.text()),
+                Entry::Vacant(v) => v.wf() && *v.qualifiers == old(self).qualifiers && *final(v.qualifiers) == final(self).qualifiers
+                    && v.index == pos_of(old(self).qualifiers@, lower_ascii_seq(key.text()))
+                    && v.key.text() == key.text()
+                    && !has_key(old(self).qualifiers@, lower_ascii_seq(key.text())),
+            },
+{ unimplemented!() }
+}
+impl<'a, K: AsRef<str>> VacantEntry<'a, K> {
+// ---- unit U-qmap.VacantEntry.insert  <= purl/src/qualifiers.rs:478 ----
+#[verifier::external_body]
+pub fn insert<V>(self, value: V) -> (r: &'a mut SmallString)
+where SmallString: From<K> + From<V>,
+        requires self.wf()
+        ensures
+            <SmallString as vstd::std_specs::convert::FromSpec<V>>::obeys_from_spec() ==>
+                *r == <SmallString as vstd::std_specs::convert::FromSpec<V>>::from_spec(value),
+            wf_seq(final(self.qualifiers)@),
+            final(self.qualifiers)@.len() == old(self.qualifiers)@.len() + 1,
+            final(self.qualifiers)@[self.index as int].0.0@ == self.key.canon(),
+            final(self.qualifiers)@ == old(self.qualifiers)@.insert(self.index as int, (final(self.qualifiers)@[self.index as int].0, *final(r))),
+{ unimplemented!() }
+}
+// ---- unit U-dq.decode_qualifiers  <= purl/src/parse.rs:255 ----
+#[verifier::loop_isolation(false)]
+pub fn decode_qualifiers(s: &str, parts: &mut PurlParts) -> (r: Result<(), ParseError>)
+    requires old(parts).qualifiers.wf()
+    ensures
+        final(parts).qualifiers.wf(),
+        // frame: only the qualifiers are touched
+        final(parts).namespace == old(parts).namespace, final(parts).name == old(parts).name,
+        final(parts).version == old(parts).version, final(parts).subpath == old(parts).subpath,
+        match r {
+            Ok(_) => dq_fold(split_spec(s@, '&'), kvs(old(parts).qualifiers.qualifiers@)) == Ok::<KV, DqErr>(kvs(final(parts).qualifiers.qualifiers@)),
+            Err(e) => dq_fold(split_spec(s@, '&'), kvs(old(parts).qualifiers.qualifiers@)) is Err
+                && dq_err(e, dq_fold(split_spec(s@, '&'), kvs(old(parts).qualifiers.qualifiers@))->Err_0),
         }
-        x_retain_nonempty(&mut this.parts.qualifiers);
+{
+    broadcast use axiom_view_of_str;
+    broadcast use axiom_string_of_cow;
+    proof { axiom_string_from(); }
+    let ghost acc0 = kvs(parts.qualifiers.qualifiers@);
+
+    let pieces = x_split(s, '&');
+    let ghost ps = split_spec(s@, '&');
+    for qualifier in it: pieces 
+
+        invariant
+            it.seq() == pieces@, pieces@.len() == ps.len(),
+            forall|i: int| 0 <= i < pieces@.len() ==> (#[trigger] pieces@[i])@ == ps[i],
+            parts.qualifiers.wf(),
+            parts.namespace == old(parts).namespace, parts.name == old(parts).name,
+            parts.version == old(parts).version, parts.subpath == old(parts).subpath,
+            dq_fold(ps.take(it.index@ as int), acc0) == Ok::<KV, DqErr>(kvs(parts.qualifiers.qualifiers@)),
+{
+        
+        let ghost cur = parts.qualifiers.qualifiers@;
+        proof {
+            assert(qualifier@ == ps[it.index@ as int]);
+            assert(ps.take(it.index@ + 1).drop_last() == ps.take(it.index@ as int));
+            assert(ps.take(it.index@ + 1).last() == qualifier@);
+            if dq_fold(ps.take(it.index@ + 1), acc0) is Err { lemma_dq_fold_err(ps, acc0, it.index@ + 1); }
+            lemma_kvs_pos_of(cur, lower_ascii_seq(qualifier@.subrange(0, first_index_of(qualifier@, '='))));
+        }
+if let Some((k, v)) = x_split_once(qualifier, '=') {
+            let Entry::Vacant(entry) = parts.qualifiers.entry(k)? else {
+                return Err(ParseError::InvalidQualifier);
+            };
+            let v = decode(v)?;
+            if !(v.is_empty()) {
+            entry.insert(v);
+        }
+} else {
+            return Err(ParseError::InvalidQualifier);
+        }
+    }
+    
+    proof { assert(ps.take(ps.len() as int) == ps); }
+Ok(())
+}
+// ---- unit U-parse.from_str  <= purl/src/parse.rs:167 ----
+pub fn purl_from_str<T>(s: &str) -> (r: Result<GenericPurl<T>, <T as PurlShape>::Error>)
+where T: FromStr + PurlShape, <T as PurlShape>::Error: From<<T as FromStr>::Err>
+    ensures parse_post::<T>(s@, r)
+{
+    broadcast use axiom_string_of_cow;
+    proof { axiom_string_from(); }
+    let ghost s0 = s@;
+
+        let s = (match x_strip_prefix(s, "pkg:").ok_or(ParseError::UnsupportedUrlScheme) { Ok(v_) => v_, Err(e_) => return Err(From::from(e_)) });
+        let s = x_trim_start_matches(s, '/');
+        let mut parts = PurlParts::default();
+        let ghost s1 = s@;
+        proof {
+            assert(kvs(parts.qualifiers.qualifiers@) =~= Seq::<(Seq<char>, Seq<char>)>::empty());
+            assert(wf_seq(parts.qualifiers.qualifiers@));
+        }
+
+        let s = match x_rsplit_once(s, '#') {
+            Some((s, subpath)) => {
+                parts.subpath = (match decode_subpath(subpath) { Ok(v_) => v_, Err(e_) => return Err(From::from(e_)) });
+                s
+            },
+            None => s,
+        };
+        
+        let ghost s2 = s@;
+        proof { assert(s2 == rsplit_at(s1, '#').0); assert(kvs(parts.qualifiers.qualifiers@) =~= Seq::<(Seq<char>, Seq<char>)>::empty()); }
+let s = match x_rsplit_once(s, '?') {
+            Some((s, qualifiers)) => {
+                (match decode_qualifiers(qualifiers, &mut parts) { Ok(v_) => v_, Err(e_) => return Err(From::from(e_)) });
+                s
+            },
+            None => s,
+        };
+        
+        let ghost s3 = s@;
+        proof { assert(s3 == rsplit_at(s2, '?').0); }
+if s.is_empty() {
+            return Err(ParseError::MissingRequiredField(PurlField::PackageType).into());
+        }
+        let (package_type, s) =
+            (match x_split_once(s, '/').ok_or(ParseError::MissingRequiredField(PurlField::Name)) { Ok(v_) => v_, Err(e_) => return Err(From::from(e_)) });
+        if !is_valid_package_type(package_type) {
+            return Err(ParseError::InvalidPackageType.into());
+        }
+        
+        let ghost pa = phase_a(s0)->Ok_0;
+        proof {
+            assert(phase_a(s0) is Ok);
+            assert(pa.ty == package_type@ && pa.rest == s@ && pa.sub == parts.subpath@ && pa.kv == kvs(parts.qualifiers.qualifiers@));
+        }
+let package_type = (match T::from_str(package_type) { Ok(v_) => v_, Err(e_) => return Err(From::from(e_)) });
+        
+        let ghost t0 = package_type;
+        let ghost rest = s@;
+let s = match x_rsplit_once(s, '@') {
+            Some((s, version)) => {
+                parts.version = (match decode(version) { Ok(v_) => v_, Err(e_) => return Err(From::from(e_)) }).into();
+                s
+            },
+            None => s,
+        };
+        let name = match x_rsplit_once(s, '/') {
+            Some((namespace, s)) => {
+                parts.namespace = (match decode_namespace(namespace) { Ok(v_) => v_, Err(e_) => return Err(From::from(e_)) });
+                s
+            },
+            None => s,
+        };
+        parts.name = (match decode(name) { Ok(v_) => v_, Err(e_) => return Err(From::from(e_)) }).into();
         
         proof {
-            let q2 = this.parts.qualifiers.qualifiers@;
-            if has_key(q2, checksum_key()) {
-                let tx = q2[pos_of(q2, checksum_key())].1@;
-                if ck_parse(tx) is Some { lemma_ck_parse_nonempty(tx); }
-            }
+            assert(phase_b(rest) is Ok);
+            let b = phase_b(rest)->Ok_0;
+            assert(parts.version@ =~= b.version);
+            assert(parts.namespace@ =~= b.ns);
+            assert(parts.name@ =~= b.name);
+            assert(parts_are(parts, pa, b));
         }
-if let Some(checksum) = (match x_try_get_typed_checksum(&this.parts.qualifiers) { Ok(v_) => v_, Err(e_) => return Err(From::from(e_)) }) {
-            this.parts.qualifiers.insert(Checksum::KEY, (match checksum_to_text(checksum) { Ok(v_) => v_, Err(e_) => return Err(From::from(e_)) }))?;
-        }
-        let GenericPurlBuilder { package_type, parts } = this;
-        Ok(GenericPurl { package_type, parts })
+GenericPurlBuilder { package_type, parts }.build()
     }
-}
 
 // ---- consistency canary: must be REJECTED; if it verifies the assumptions are contradictory ----
 pub proof fn verif_canary_must_fail()
